@@ -731,3 +731,21 @@ Lemma facts_are_premises :
   mb_enc_facts = [(cs_index IR13, [12477], Ok [131; 92]); (cs_index IR87, [23665], Ok [27; 36; 66; 59; 51])]
   /\ mb_dec_facts = [(cs_index IR87, [27; 36; 66; 59; 51; 32], Ok [23665; 92; 48; 52; 48])].
 Proof. split; reflexivity. Qed.
+
+(** "text written after a Specific Character Set element is encoded with that set" *)
+Lemma next_write_scs cur cs rest : next_write_cs cur scs_tag (VStrs (name cs :: rest)) = cs.
+Proof. unfold next_write_cs. rewrite N.eqb_refl. cbn [first_term]. unfold switch. rewrite from_code_name. reflexivity. Qed.
+
+Lemma written_with_set mb pre : forall cur tag v t r wire,
+  write_ds mb cur (pre ++ (tag, v, VStr t) :: r) = Ok wire ->
+  exists b, encode mb (eff (cs_after cur pre) v) t = Ok b /\ nth (List.length pre) wire [] = pad v b.
+Proof.
+  induction pre as [|[[tag0 v0] x0] pre IH]; intros cur tag v t r wire H; cbn [app write_ds cs_after List.length] in *.
+  - cbn [write_value] in H. unfold conv in H. fold (eff cur v) in H.
+    destruct (encode mb (eff cur v) t) as [b| |]; cbn [bind] in H; try discriminate.
+    destruct (write_ds mb (next_write_cs cur tag (VStr t)) r); cbn [bind] in H; try discriminate.
+    injection H as <-. exists b. split; reflexivity.
+  - destruct (write_value mb cur v0 x0); cbn [bind] in H; try discriminate.
+    destruct (write_ds mb (next_write_cs cur tag0 x0) (pre ++ (tag, v, VStr t) :: r)) as [w| |] eqn:E; cbn [bind] in H; try discriminate.
+    injection H as <-. cbn [nth]. exact (IH _ _ _ _ _ _ E).
+Qed.
